@@ -10,7 +10,7 @@ from ..families import c14 as fam
 from ..models import importstub
 from .c05 import merge
 
-PARAMS = [("IMP_PRE", "List[bool]"), ("IMP_OTHER_ATTR", "bool"), ("IMP_ANCHOR", "bool"), ("V", "List[int]")]
+PARAMS = [("IMP_PRE", "List[bool]"), ("IMP_OTHER_ATTR", "bool"), ("IMP_ANCHOR", "bool"), ("V", "List[int]"), ("FLAG", "bool")]
 PRE = "len(IMP_PRE) == 6 and len(V) == 6"
 
 
@@ -19,7 +19,7 @@ def samples():
     for pre in ([False] * 6, [True] * 6, [False, True, True, False, False, False], [False, True, False, False, False, False]):
         for oa in (False, True):
             for an in (False, True):
-                out.append({"IMP_PRE": list(pre), "IMP_OTHER_ATTR": oa, "IMP_ANCHOR": an, "V": [10, 20, 30, 40, 50, 60]})
+                out.append({"IMP_PRE": list(pre), "IMP_OTHER_ATTR": oa, "IMP_ANCHOR": an, "V": [10, 20, 30, 40, 50, 60], "FLAG": (len(out) % 2 == 0)})
     return out
 
 
@@ -48,7 +48,7 @@ def log(*a):
 if anchor != "-":
     __import__(anchor)
     LOG.clear() if False else None
-g = {"log": log, "val": val, "__package__": (anchor if anchor != "-" else None), "__name__": (anchor + ".mod" if anchor != "-" else "__main__")}
+g = {"log": log, "val": val, "FLAG": True, "__package__": (anchor if anchor != "-" else None), "__name__": (anchor + ".mod" if anchor != "-" else "__main__")}
 try:
     exec(compile(src, "<src>", "exec"), g, g)
     print(json.dumps({"ok": True, "log": LOG}, default=str))
@@ -77,6 +77,8 @@ def validate_stub(rep, tier, seed=0):
             progs = [p for p in fam.programs() if p[0].endswith(":module") or (tier == "thorough" and p[0].endswith(":function"))]
             if tier == "quick":
                 progs = [p for k, p in enumerate(progs) if ":pair_" not in p[0] or k % 3 == seed % 3]
+            sq = [p for p in fam.seq_programs() if p[0].endswith(":module")]
+            progs += [p for k, p in enumerate(sq) if tier == "thorough" or k % 6 == seed % 6]
             for desc, src in progs:
                 rel = "rel" in desc
                 for anchor in (("pkg", "pkg.sub") if rel else ("-",)):
@@ -95,7 +97,7 @@ def validate_stub(rep, tier, seed=0):
                         pre[1] = True
                         if anchor == "pkg.sub":
                             pre[2] = True
-                    env = rt.Env({"IMP_PRE": pre, "IMP_OTHER_ATTR": other_attr, "IMP_ANCHOR": anchor == "pkg.sub", "V": [10, 20, 30, 40, 50, 60]}, budget=500)
+                    env = rt.Env({"IMP_PRE": pre, "IMP_OTHER_ATTR": other_attr, "IMP_ANCHOR": anchor == "pkg.sub", "V": [10, 20, 30, 40, 50, 60], "FLAG": True}, budget=500)
                     ok = True
                     err = None
                     try:
@@ -162,10 +164,14 @@ def run(tier):
     if rep.harness_errors:
         return rep.finish()
     tpls = []
+    seqp = list(fam.seq_programs())
+    if tier == "quick":
+        seqp = [p for k, p in enumerate(seqp) if k % 5 == seed % 5]
     allp = list(fam.programs())
     if tier == "quick":
         # pair forms: a seed-rotated half of the module placements and an eighth of the other placements
         allp = [p for k, p in enumerate(allp) if ":pair_" not in p[0] or (k % 2 == seed % 2 if p[0].endswith(":module") else k % 8 == seed % 8)]
+    allp = allp + seqp
     for k, (desc, src) in enumerate(allp):
         t = sce.Template(desc, src, PARAMS, PRE, observe="trace+globals", budget=300, samples=samples())
         if tier == "quick":
@@ -181,12 +187,12 @@ def run(tier):
     cov = rep.coverage
     cov.update(agg["stats"])
     cov["samples"] = agg["samples"][:3]
-    cov["universe"] = {"forms": len(fam.FORMS), "pair_forms": len(fam._pair_forms()), "programs_universe": len(list(fam.programs())), "programs": len(tpls)}
+    cov["universe"] = {"forms": len(fam.FORMS), "pair_forms": len(fam._pair_forms()), "programs_universe": len(list(fam.programs())), "sequence_programs_universe": len(list(fam.seq_programs())), "programs": len(tpls)}
     cov["exhaustive"] = tier == "thorough"
     cov["inconclusive_obligations"] = agg["inconclusive"][:50]
     cov["stub_validation_cases"] = nval
     cov["functions_encoded"] = ["oneliner.convert_code_string (concrete)", "converted text (symbolic): PendingImport.get_result / PendingImportFrom.get_result, Namespace*.get_assign", "vf.models.importstub.ImportStub (stub import system, both sides)"]
-    cov["bounds"] = "24 statement forms + every ordered pair of 10 single-alias items in one import statement (91 forms) x placement {module, function, class, function with global declaration, captured by an inner function}; symbolic environment: which of the 6 modules of the abstract tree are already imported, whether pkg.other is an attribute or a submodule, the anchor package of relative imports (pkg / pkg.sub), all module attribute values"
+    cov["bounds"] = "24 statement forms + every ordered pair of 10 single-alias items in one import statement (91 forms) x placement; plus sequences of two import statements that bind the same name under control flow (first one conditional on a symbolic flag, if/else, rebinding in between, loops, a function called twice) {module, function, class, function with global declaration, captured by an inner function}; symbolic environment: which of the 6 modules of the abstract tree are already imported, whether pkg.other is an attribute or a submodule, the anchor package of relative imports (pkg / pkg.sub), all module attribute values"
     cov["explanation"] = "one PEP-316 condition per (program, configuration): over every import environment the order and count of module executions, the logged identities/values of the bound names, the scope they are bound in and the final globals of exec(source) and eval(converted) coincide"
     rep.assumptions += ["stub: the import system is replaced on both sides by vf.models.importstub (validated against the real import system on a vendored on-disk copy of the tree in %d fresh-process runs at check start)" % nval, "the source reaches the stub through CPython's real IMPORT_NAME/IMPORT_FROM byte-code"]
     return rep.finish()
